@@ -235,8 +235,13 @@ Fixpoint rq_rif_loop (now : N) (key : str) (ifexp : N) (l : list elem) (idx : Z)
         end
   end.
 
-(* ReadInflight(maxSize) *)
+(* ReadInflight(maxSize).  maxSize = 0 (repaired in /repo, 309d247): nothing is read and no command
+   is issued - LRANGE cur cur-1 would be the whole list at cursor 0 and empty by construction at
+   any other cursor; the in-flight entries count as drained only when the list is exhausted *)
 Definition rq_read_inflight (now : N) (maxsize : nat) (s : rstore) (q : rq) : rqres :=
+  match maxsize with
+  | O => done s (rq_upd q (rq_len q) (rq_cur q) (rq_drained q || (rq_len q <=? rq_cur q)%Z) (rq_cache q)) (RReadInflight []) []
+  | S _ =>
   let l := elems_of (lrange (rq_key q) (rq_cur q) (rq_cur q + Z.of_nat maxsize - 1)%Z s) in
   match l with
   | [] => done s (rq_upd q (rq_len q) (rq_cur q) true (rq_cache q)) (RReadInflight []) []
@@ -244,6 +249,7 @@ Definition rq_read_inflight (now : N) (maxsize : nat) (s : rstore) (q : rq) : rq
       let '(cur, cache, rs, cmds, dr, panicked) := rq_rif_loop now (rq_key q) (rq_ifexp q) l (rq_cur q) (rq_cur q) (rq_cache q) [] [] in
       let q' := rq_upd q (rq_len q) cur (rq_drained q || dr) cache in
       if panicked then done s q' RPanic cmds else done s q' (RReadInflight rs) cmds
+  end
   end.
 
 (* Remove(pid): only through the read cache *)
